@@ -128,6 +128,9 @@ pub enum Case {
     Growth { k: usize, seq: Vec<u8>, draw: u64 },
     /// as Growth, with every source file staged in cache.temp_dir(); `first`: scripted draws before the default
     Staged { k: usize, seq: Vec<u8>, draw: u64, first: Vec<u64> },
+    /// fresh-key puts while `.kismet_temp` is a regular file (listing it fails with ENOTDIR, so every
+    /// maintaining write returns an error): the directory must still be pruned on schedule
+    BrokenTemp { k: usize, writes: u32, draw: u64 },
     /// capacity, draw, number of writes
     Huge { k: usize, draw: u64, writes: u32 },
     /// worst-case family at capacity k: fresh keys only, alternating (mode 0) or all put (mode 1)
@@ -140,6 +143,7 @@ impl Case {
             Case::Trigger { k, start, script } => json!({"kind": "trigger", "k": k.to_string(), "start": start.to_string(), "script": script.iter().map(|d| d.to_string()).collect::<Vec<_>>()}),
             Case::Growth { k, seq, draw } => json!({"kind": "growth", "k": k.to_string(), "seq": seq, "draw": draw.to_string()}),
             Case::Staged { k, seq, draw, first } => json!({"kind": "staged", "k": k.to_string(), "seq": seq, "draw": draw.to_string(), "first": first.iter().map(|d| d.to_string()).collect::<Vec<_>>()}),
+            Case::BrokenTemp { k, writes, draw } => json!({"kind": "broken_temp", "k": k.to_string(), "writes": writes, "draw": draw.to_string()}),
             Case::Huge { k, draw, writes } => json!({"kind": "huge", "k": k.to_string(), "draw": draw.to_string(), "writes": writes}),
             Case::Family { k, mode, draw } => json!({"kind": "family", "k": k.to_string(), "mode": mode, "draw": draw.to_string()}),
         }
@@ -156,6 +160,8 @@ impl Case {
                 draw: num(&v["draw"]),
                 first: v["first"].as_array().map(|a| a.iter().map(num).collect()).unwrap_or_default(),
             },
+            "broken_temp" => Case::BrokenTemp { k, writes: v["writes"].as_u64().unwrap() as u32, draw: num(&v["draw"]) },
+            "broken_temp" => Case::BrokenTemp { k, writes: v["writes"].as_u64().unwrap() as u32, draw: num(&v["draw"]) },
             "huge" => Case::Huge { k, draw: num(&v["draw"]), writes: v["writes"].as_u64().unwrap() as u32 },
             _ => Case::Family { k, mode: v["mode"].as_u64().unwrap() as u8, draw: num(&v["draw"]) },
         }
@@ -255,6 +261,35 @@ pub fn run_case(case: &Case, rep: &mut Report) -> Vec<(String, String)> {
                 bad.retain(|b| b.0 == "error");
             }
         }
+        Case::BrokenTemp { k, writes, draw } => {
+            let p = period(*k as u128) as usize;
+            let mut w = Writer::new(&sc, *k);
+            shim::passthrough(|| std::fs::write(w.dir.join(".kismet_temp"), b"not a directory").unwrap());
+            verif_hooks::script_trigger_draws(&[], Some(*draw));
+            verif_hooks::set_trigger_counter(0);
+            let mut ok_writes = 0u32;
+            for i in 0..*writes {
+                let (r, _ran, _before, trace) = w.write(&format!("key{}", i), i % 2 == 0);
+                rep.transitions += trace.len() as u64;
+                match r {
+                    Err(pmsg) => {
+                        bad.push(("panic".into(), format!("write {} panicked: {}", i, pmsg)));
+                        break;
+                    }
+                    Ok(Ok(())) => ok_writes += 1,
+                    Ok(Err(_)) => {} // the failed listing of .kismet_temp is reported: fine
+                }
+                // (the .kismet_temp file itself is not a cache entry)
+                let n = w.file_count().saturating_sub(1);
+                if n > k + p {
+                    bad.push((
+                        "too-many-files".into(),
+                        format!("capacity {}: {} files after write {} ({} succeeded) although every trigger firing reached maintenance (bound {})", k, n, i, ok_writes, k + p),
+                    ));
+                    break;
+                }
+            }
+        }
         Case::Family { k, mode, draw } => {
             let p = period(*k as u128) as usize;
             let mut w = Writer::new(&sc, *k);
@@ -348,7 +383,8 @@ pub fn run(tier: Tier, shard: Shard, rep: &mut Report) {
          with the gap-maximising and the minimal draw, and for capacities up to {} the fresh-key worst-case families of length \
          2(k+p)+2: after every write the file count is <= k + max(1, k/3) and no window of max(1, k/3) writes lacks maintenance; (3) \
          the fresh-key families again with every source file staged in cache.temp_dir() (the documented workflow: temp_dir() is \
-         not a write and must not use up the window); capacities 2^63, 3*2^62, usize::MAX-2..=usize::MAX: small draws fire at the first write, 2^64-1 with 1000 writes never \
+         not a write and must not use up the window); fresh-key writes while .kismet_temp cannot be listed (it is a regular file): \
+         the firing writes report the error but the directory is still pruned on schedule; capacities 2^63, 3*2^62, usize::MAX-2..=usize::MAX: small draws fire at the first write, 2^64-1 with 1000 writes never \
          panics. Every case is distinct.",
         kmax, smallk, seqlen, kmax
     );
@@ -415,6 +451,12 @@ pub fn run(tier: Tier, shard: Shard, rep: &mut Report) {
                     take(Case::Staged { k, seq, draw, first: first.clone() }, rep);
                 }
             }
+        }
+    }
+    for k in 0..=kmax.min(30) {
+        let p = period(k as u128) as u32;
+        for draw in [u64::MAX, 1u64, (scale(k as u128) as u64).saturating_add(1)] {
+            take(Case::BrokenTemp { k, writes: 3 * (k as u32 + p) + 6, draw }, rep);
         }
     }
     for k in (smallk + 1)..=kmax {
